@@ -129,6 +129,11 @@ impl Cell {
 pub fn begin_register() {
     assert!(K >= 1 && K <= 4);
     unsafe {
+        // fresh state (the native search runs many harness instances in one process)
+        NCELLS = 0;
+        THREAD = 0;
+        ROUND = 0;
+        CAS_FAILS = [0; 8];
         MODE = 1;
     }
 }
